@@ -43,7 +43,10 @@ type Solver struct {
 	Time     time.Duration
 	Errors   int
 	timeoutM int
-	dead     bool
+	// shortM, when non-zero, replaces the soft timeout of the next queries (z3 only: the timeout is
+	// part of the per-query preamble)
+	shortM int
+	dead   bool
 }
 
 // SolverArgv returns the command line for a named solver.
@@ -110,7 +113,11 @@ func (s *Solver) preamble() string {
 	if s.Name == "cvc5" {
 		return "(reset)\n(set-logic ALL)\n(set-option :produce-models true)\n"
 	}
-	return fmt.Sprintf("(reset)\n(set-option :timeout %d)\n", s.timeoutM)
+	t := s.timeoutM
+	if s.shortM > 0 && s.shortM < t {
+		t = s.shortM
+	}
+	return fmt.Sprintf("(reset)\n(set-option :timeout %d)\n", t)
 }
 
 // readLine reads one reply line with a hard deadline (solver timeouts are soft).
